@@ -3,7 +3,7 @@ import Driver.Util
 /- `driver poolconc`: validate the projected trace of one built-in pool against Model.PoolConc.
      cfg spin|mutex <shared 0|1>
      call a push u h | call a pushMany h u1 u2 .. | call a pop t | call a popMany max t | call a popWait t | call a remove u
-     ret a unit | ret a popped u1 u2 .. | ret a rc 0|1
+     ret a unit | ret a popped u1 u2 .. | ret a rc 0|1 | cbPushMany a n
      tas a 0|1 | loadLock a 0|1 | loadEmpty a 0|1 | loadIn a u 0|1 | clear a | mlock a | munlock a
      link a u h | take a r h | unlink a u | rmFail a | storeEmpty a 0|1 | storeIn a u 0|1
      signal a | condWait a | wake a
@@ -24,6 +24,7 @@ def parseEv (ws : List String) : Option (Ev × Nat) :=
   | ["call", a, "popMany", m, t] => do let a ← a.toNat?; let m ← m.toNat?; let t ← b t; pure (.call a (.popMany m t), a)
   | ["call", a, "popWait", t] => do let a ← a.toNat?; let t ← b t; pure (.call a (.popWait t), a)
   | ["call", a, "remove", u] => do let a ← a.toNat?; let u ← u.toNat?; pure (.call a (.remove u), a)
+  | ["cbPushMany", a, n] => do let a ← a.toNat?; let n ← n.toNat?; pure (.cbPushMany a n, a)
   | ["ret", a, "unit"] => do let a ← a.toNat?; pure (.ret a .unit, a)
   | "ret" :: a :: "popped" :: us => do let a ← a.toNat?; let us ← nats us; pure (.ret a (.popped us), a)
   | ["ret", a, "rc", ok] => do let a ← a.toNat?; let ok ← b ok; pure (.ret a (.rc ok), a)
